@@ -264,7 +264,7 @@ func runC03(e *env) {
 		tsl := tsListSkeleton(o)
 		e.m.count("ts_list_" + strings.ToLower(strings.TrimPrefix(strings.SplitN(strings.Trim(tsl, "("), " ", 2)[0], "Ts")))
 		cases = append(cases, fmt.Sprintf("{| c3_tsl := %s;\n c3_prog := %s;\n c3_enums := %s;\n c3_ana := %s;\n c3_env := %s;\n c3_docs := %s |}", tsl, o.Facts, o.Enums, o.Ana, coqListNL(decls), coqListNL(docs)))
-		inputs = append(inputs, map[string]interface{}{"module": spec, "typescript": o.Gen["ts"].Text, "class": cls})
+		inputs = append(inputs, map[string]interface{}{"module": spec, "typescript": o.Gen["ts"].Text, "class": cls, "class_scope": "property-only"})
 		if len(cases) == 2 {
 			e.writeCases2(fmt.Sprintf("cases_C03_%d", len(e.m.CaseFiles)), anaHeader+"From GM Require Import Sem.GoJson Sem.TsSem Model.TsTypes Corr.Check_C03.\n", "mismatches", "prop_failures", cases, inputs)
 			cases, inputs = nil, nil
